@@ -274,10 +274,11 @@ func (s *serverSocket) onAck(header *parser.PacketHeader, decode parser.Decode) 
 }
 
 func (s *serverSocket) Join(room ...Room) {
+	// `joinMu` is held while joining: once `onClose` has replaced `join`, no join
+	// that started earlier can still add the socket to a room after `leaveAll`.
 	s.joinMu.Lock()
-	join := s.join
-	s.joinMu.Unlock()
-	join(room...)
+	defer s.joinMu.Unlock()
+	s.join(room...)
 }
 
 func (s *serverSocket) Leave(room Room) {
